@@ -15,12 +15,21 @@ import (
 // respects in which a transaction can be wrong (or, for conf-ok, unusual but valid)
 var c07Respects = []string{"sysfee", "script", "expired", "notyet", "blocked", "toobig", "smallfee", "outofgas",
 	"onchain", "conflict-onchain", "badsig", "wronghash", "attr-high", "attr-nvb", "attr-dupconf", "attr-conf-onchain",
-	"conf-ok", "pool-insufficient", "pool-dup", "pool-conflict"}
+	"conf-ok", "vub-max", "pool-insufficient", "pool-dup", "pool-conflict"}
 
 type c07AdmitIn struct {
 	Seed     uint64   `json:"seed"`
 	Shape    [2]int   `json:"shape"`
 	Respects []string `json:"respects"`
+	Gov      *c07Gov  `json:"gov,omitempty"`
+}
+
+// c07Gov: limits the committee sets through the Policy contract before the probe (0 = left at the default)
+type c07Gov struct {
+	VubInc  uint32 `json:"vubinc,omitempty"`  // setMaxValidUntilBlockIncrement (config: 500)
+	Fpb     int64  `json:"fpb,omitempty"`     // setFeePerByte (default 1000)
+	ExecFee int64  `json:"execfee,omitempty"` // setExecFeeFactor, in picoGAS since Faun (default 300000 = 30 Datoshi)
+	ConfFee int64  `json:"conffee,omitempty"` // setAttributeFee(Conflicts) (otherwise 50000)
 }
 
 func c07GenAdmit(r *rng) c07AdmitIn {
@@ -28,6 +37,22 @@ func c07GenAdmit(r *rng) c07AdmitIn {
 	if r.chance(50) {
 		n := 1 + r.intn(4)
 		in.Shape = [2]int{1 + r.intn(n), n}
+	}
+	if r.chance(40) {
+		g := &c07Gov{}
+		if r.chance(70) {
+			g.VubInc = pick(r, []uint32{1, 3, 20, 499, 501, 600, 900})
+		}
+		if r.chance(60) {
+			g.Fpb = pick(r, []int64{1, 200, 999, 1001, 3000})
+		}
+		if r.chance(50) {
+			g.ExecFee = pick(r, []int64{1, 7, 9999, 10001, 123457, 299999, 300001, 600000, 1000000})
+		}
+		if r.chance(50) {
+			g.ConfFee = pick(r, []int64{1, 777, 49999, 50001, 400000})
+		}
+		in.Gov = g
 	}
 	if r.chance(8) {
 		return in // fully valid
@@ -60,6 +85,16 @@ func c07GenAdmit(r *rng) c07AdmitIn {
 
 const c07ConflictsFee = 50000
 
+// c07Defective: does the list of respects contain a real defect (conf-ok and vub-max are unusual but valid)
+func c07Defective(rs []string) bool {
+	for _, x := range rs {
+		if x != "conf-ok" && x != "vub-max" {
+			return true
+		}
+	}
+	return false
+}
+
 func c07RunAdmit(co *caseOut, in c07AdmitIn) {
 	has := map[string]bool{}
 	for _, x := range in.Respects {
@@ -76,11 +111,42 @@ func c07RunAdmit(co *caseOut, in c07AdmitIn) {
 	c.fund(1000_0000_0000, sender, other)
 	// a price on Conflicts attributes and a blocked account (one block)
 	pol := c.e.CommitteeInvoker(c.policy)
-	txa := pol.PrepareInvoke(t, "setAttributeFee", int64(transaction.ConflictsT), int64(c07ConflictsFee))
-	txb := pol.PrepareInvoke(t, "blockAccount", blocked.hash())
-	setup := c.addBlock(txa, txb)
-	fpb := c.bc.FeePerByte()
-	base := c.bc.GetBaseExecFee()
+	// the limits as the committee sets them now: from here on these values (known by construction), not the node's
+	// getters, parametrise the expected behaviour
+	confFee, fpb, maxInc, base := int64(c07ConflictsFee), int64(1000), c.bc.GetConfig().MaxValidUntilBlockIncrement, int64(30)*10000
+	gov := in.Gov
+	if gov == nil {
+		gov = &c07Gov{}
+	}
+	if gov.ConfFee != 0 {
+		confFee = gov.ConfFee
+	}
+	prelude := []*transaction.Transaction{
+		pol.PrepareInvoke(t, "setAttributeFee", int64(transaction.ConflictsT), confFee),
+		pol.PrepareInvoke(t, "blockAccount", blocked.hash()),
+	}
+	if gov.VubInc != 0 {
+		maxInc = gov.VubInc
+		prelude = append(prelude, pol.PrepareInvoke(t, "setMaxValidUntilBlockIncrement", int64(maxInc)))
+	}
+	if gov.Fpb != 0 {
+		fpb = gov.Fpb
+		prelude = append(prelude, pol.PrepareInvoke(t, "setFeePerByte", fpb))
+	}
+	if gov.ExecFee != 0 {
+		base = gov.ExecFee
+		prelude = append(prelude, pol.PrepareInvoke(t, "setExecFeeFactor", gov.ExecFee))
+	}
+	setup := c.addBlock(prelude...)
+	for _, ptx := range prelude {
+		c.e.CheckHalt(t, ptx.Hash())
+	}
+	c.baseOverride = base
+	if c.bc.FeePerByte() != fpb || c.bc.GetMaxValidUntilBlockIncrement() != maxInc || c.bc.GetBaseExecFee() != base {
+		co.violation("admit", fmt.Sprintf("the node reports fee per byte %d, MaxValidUntilBlockIncrement %d, base exec fee %d; the Policy contract was set to %d, %d, %d",
+			c.bc.FeePerByte(), c.bc.GetMaxValidUntilBlockIncrement(), c.bc.GetBaseExecFee(), fpb, maxInc, base), in, nil)
+		return
+	}
 
 	spec := c07TxSpec{signers: []*c07Acct{sender}, script: c07PushOne, sysfee: 100_0000}
 	// how many blocks will still be added before the submission
@@ -111,7 +177,10 @@ func c07RunAdmit(co *caseOut, in c07AdmitIn) {
 		spec.vub = hSubmit
 	}
 	if has["notyet"] {
-		spec.vub = hSubmit + c.bc.GetMaxValidUntilBlockIncrement() + 1
+		spec.vub = hSubmit + maxInc + 1
+	}
+	if has["vub-max"] && !has["expired"] && !has["notyet"] && !has["onchain"] {
+		spec.vub = hSubmit + maxInc // the last admissible value
 	}
 	if has["onchain"] && has["expired"] {
 		spec.vub = hSubmit // valid when included at hSubmit, expired afterwards
@@ -156,10 +225,10 @@ func c07RunAdmit(co *caseOut, in c07AdmitIn) {
 		} else if has["expired"] {
 			spec.vub = hSubmit
 		} else {
-			spec.vub = hSubmit + c.bc.GetMaxValidUntilBlockIncrement() + 1
+			spec.vub = hSubmit + maxInc + 1
 		}
 	}
-	attrFee := int64(nconf) * c07ConflictsFee * int64(len(spec.signers))
+	attrFee := int64(nconf) * confFee * int64(len(spec.signers))
 	delta := int64(0)
 	spec.netfee = func(size int, calc int64) int64 {
 		switch {
@@ -214,7 +283,7 @@ func c07RunAdmit(co *caseOut, in c07AdmitIn) {
 		if has["expired"] {
 			spec.vub = hSubmit
 		} else if has["notyet"] {
-			spec.vub = hSubmit + c.bc.GetMaxValidUntilBlockIncrement() + 1
+			spec.vub = hSubmit + maxInc + 1
 		} else {
 			spec.vub = hSubmit + 1
 		}
@@ -276,7 +345,7 @@ func c07RunAdmit(co *caseOut, in c07AdmitIn) {
 		}
 	}
 	bal := c.bc.GetUtilityTokenBalance(spec.signers[0].hash(), util.Uint160{})
-	chainT := fmt.Sprintf("(mkChain %d %d %d %d %d)", c.bc.BlockHeight(), c.bc.GetMaxValidUntilBlockIncrement(), fpb,
+	chainT := fmt.Sprintf("(mkChain %d %d %d %d %d)", c.bc.BlockHeight(), maxInc, fpb,
 		c.bc.GetConfig().MaxBlockSystemFee, c.bc.GetMaxVerificationGAS())
 	factsT := fmt.Sprintf("(mkFacts %s %d %d %d %d %d %s %s %s [] %s)", coqBool(scriptOK), tx.ValidUntilBlock, tx.Size(), tx.SystemFee,
 		tx.NetworkFee, attrFee, coqBool(!has["blocked"]), coqBool(onChain), coqBool(conflictOnChain), coqBool(attrsOK))
@@ -295,7 +364,7 @@ func c07RunAdmit(co *caseOut, in c07AdmitIn) {
 		co.violation("admit", "PoolTx returned an error outside the modelled classes: "+name, in, impl)
 		return
 	}
-	co.add("admit", tag, len(in.Respects) > 0 && !(len(in.Respects) == 1 && has["conf-ok"]), in, impl, term)
+	co.add("admit", tag, c07Defective(in.Respects), in, impl, term)
 	// direct: pooled exactly when accepted; a refusal leaves the private pool as it was
 	want := len(pre)
 	if err == nil {
@@ -304,10 +373,10 @@ func c07RunAdmit(co *caseOut, in c07AdmitIn) {
 	if mp.Count() != want {
 		co.violation("admit", fmt.Sprintf("the pool holds %d transactions after the submission, expected %d (%s)", mp.Count(), want, name), in, impl)
 	}
-	if err == nil && len(in.Respects) > 0 && !(len(in.Respects) == 1 && has["conf-ok"]) {
+	if err == nil && c07Defective(in.Respects) {
 		co.violation("admit", "a transaction defective in "+tag+" was admitted", in, impl)
 	}
-	if err != nil && (len(in.Respects) == 0 || len(in.Respects) == 1 && has["conf-ok"]) {
+	if err != nil && !c07Defective(in.Respects) {
 		co.violation("admit", "a valid transaction was refused: "+err.Error(), in, impl)
 	}
 	_ = neotest.Nonce
